@@ -36,6 +36,9 @@ func splitCell(id string) (fm string, shape []string) {
 }
 
 func renderKey(fm string, shape []string, clause string) string {
+	if strings.HasPrefix(fm, "aft:") {
+		return "afterwards:" + strings.TrimPrefix(fm, "aft:") + ":" + strings.Join(shape, ",")
+	}
 	names := paramNames[strings.Replace(fm, "arr2:", "arr:", 1)]
 	p := make([]string, len(shape))
 	for i, s := range shape {
